@@ -98,7 +98,7 @@ def main():
                  {"case": cases[rej.index], "step": rej.step, "why": rej.why, "spec_state": rej.state[:2000], "event": ev})
     nscan = sum(1 for c in cases if c["ops"][0]["name"] == "fast_scan")
     cov = {"states": mc.distinct, "transitions": mc.generated, "traces_validated_against_impl": val.traces,
-           "samples": [results[2]["ev"][:3] + results[2]["ev"][-2:]], "trace_events": val.events,
+           "samples": [results[min(2, len(results) - 1)]["ev"][:3] + results[min(2, len(results) - 1)]["ev"][-2:]], "trace_events": val.events,
            "fast_scans": nscan, "service_calls": sum(len(c["ops"]) for c in cases) - nscan, "rejected": len(val.rejects)}
     return v.finish("model_checking", cov, [
         "slave simulator is untrusted: its fast-scan reactions are judged by the CiA 305 state machine in TLA+",
